@@ -489,6 +489,8 @@ func float64Case(t *mon.T) {
 		cf, _ := new(big.Int).SetString(gen.Digits(r, int64(1+r.Intn(25))), 10)
 		if r.Bool() {
 			d = gen.WithAdj(r.Bool(), cf, r.Range(-326, -305))
+		} else if r.Chance(1, 3) {
+			d = gen.WithAdj(r.Bool(), cf, r.Range(-420, -320)) // below the smallest subnormal: must become +/-0
 		} else {
 			d = gen.WithAdj(r.Bool(), cf, r.Range(306, 310))
 		}
